@@ -404,6 +404,7 @@ pub fn explore(seed: u64, thorough: bool, st: &mut Stats) -> Vec<Replay> {
     for strat in plan {
         let rs = rng.next_u64();
         let o = run_scen(&sc, &strat, rs, None);
+        crate::driver::chain(o.digest);
         st.runs += 1;
         st.steps += o.steps;
         st.switches += o.switches;
